@@ -239,7 +239,12 @@ class RungeKuttaIntegrator(TableauIntegrator, abc.ABC):
         self._requires_high_precision = False
         self.final_time = initial_time + self.dTime
         self.final_state = initial_state + self.dState
-        
+
+        if not self.is_adaptive and D.ar_numpy.abs(timestep) > D.ar_numpy.abs(current_timestep):
+            # a scheme without an embedded error estimate has nothing to base a longer step on: it keeps the requested step
+            # (and only takes a shorter one when its stage equations could not be solved)
+            timestep = current_timestep
+
         return timestep, (self.dTime, self.dState)
         
 
